@@ -162,6 +162,57 @@ def rule_variants(chk, fb, rid="C06.b.variants"):
                    detail="%s can write <%s .../> self-closing with attributes (line %s); %s dispatches <%s> under %s" % ("::".join(d.split("::")[-2:]), t, risky[0][2], "::".join(x.split("::")[-2:]), t, sorted(arms[x][t])))
 
 
+def rule_empty_arms(chk, fb, rid="C06.b.empty"):
+    """The converse of rule_variants: a reader that consumes events until its own end tag must not be started on a
+    self-closing element - there is no end tag, it would eat the siblings that follow (or panic at the end of the part)."""
+    from cfg import CFG
+
+    r = chk.rule(
+        rid,
+        "self-closing elements are not over-read: every set_attributes called from an Event::Empty arm either contains no event-reading loop or is passed `true` for its empty flag",
+        floor=150,
+    )
+    memo = {}
+
+    def loops_reading(d):
+        if d not in memo:
+            b = fb.mir.get(d)
+            res = False
+            if b:
+                cfg = CFG(b)
+                for t_, h_ in cfg.back_edges():
+                    body = cfg.natural_loop(t_, h_)
+                    if any(bi in body and "read_event" in tt.get("fn", "") for bi, tt in fb.calls_in(b)):
+                        res = True
+            memo[d] = res
+        return memo[d]
+
+    for d, h in sorted(fb.hir.items()):
+        n = 0
+        for x in hirq.walk(h["body"]):
+            if x.get("k") is None and x.get("pat") and "Event::Empty" in str(x["pat"].get("def", "")):
+                for c in hirq.calls(x["body"]):
+                    cd = c.get("def") or ""
+                    if not (cd.endswith("::set_attributes") and cd in fb.mir):
+                        continue
+                    ok = True
+                    why = "the callee reads no further events"
+                    if loops_reading(cd):
+                        cb = fb.mir[cd]
+                        flags = [i for i in range(1, cb["argc"] + 1) if fb.ty(cb["locals"][i]["t"]) == "bool"]
+                        lit = None
+                        if flags:
+                            ai = flags[0] - 1 - (1 if c.get("k") == "mcall" else 0)
+                            if 0 <= ai < len(c.get("args", [])):
+                                v = hirq.strip(c["args"][ai])
+                                lit = v.get("v") if v.get("k") == "lit" else "?"
+                        ok = bool(flags) and lit is True
+                        why = "the callee loops over events up to its end tag; empty flag passed: %s" % (lit if flags else "it has none")
+                    chk.touch(d)
+                    chk.ob(r, "%s->%s#%d" % ("::".join(d.split("::")[-2:]), cd.split("::")[-2], n), ok, where="%s:%s" % (h["file"], c.get("ln")), detail=why, nontrivial=loops_reading(cd))
+                    n += 1
+
+
 def rule_sheet_list(chk, fb):
     rs = chk.rule(
         "C06.b.sheets",
@@ -248,7 +299,9 @@ def run(chk, fb, tier):
     C04.rule_symmetry(chk, fb, tier, "C06.b", files=None, floor=250, label="C06")
     rule_dispatch(chk, fb)
     rule_variants(chk, fb)
+    rule_empty_arms(chk, fb)
     symmetry.rule_enum_tables(chk, fb, "C06.b.enums")
+    symmetry.rule_omitted_defaults(chk, fb, "C06.b.defaults", exclude=("CellFormula",))  # cell formulas are C01/C04 matter
     rule_sheet_list(chk, fb)
     # C06.c sheet-name uniqueness
     C02.rule_sheet_names(chk, fb, "C06.c")
